@@ -247,9 +247,15 @@ pub fn write_presented(rng: &mut Rng, dir: &Path, stem: &str, text: &[u8], p: &P
             cuts.push(text.len());
             cuts.sort();
             cuts.dedup();
+            // bgzip-style: sometimes EMPTY members between the parts and at the end (what `cat` of
+            // bgzip files gives: every bgzip file ends with an empty BGZF EOF block)
+            let empties = rng.chance(1, 2);
             let mut b = vec![];
             for w in cuts.windows(2) {
                 b.extend(gzip_member(&text[w[0]..w[1]]));
+                if empties && rng.chance(2, 3) {
+                    b.extend(gzip_member(&[]));
+                }
             }
             (dir.join(format!("{stem}.fa.gz")), b)
         }
